@@ -108,7 +108,7 @@ impl<'a> Cast<Val<'a>> for u16 { fn cast(self) -> Val<'a> { Val::Integer(self as
 
 impl<'a> Cast<Val<'a>> for u32 { fn cast(self) -> Val<'a> { Val::Integer(self as i64) } }
 
-impl<'a> Cast<Val<'a>> for i64 { fn cast(self) -> Val<'a> { Val::Integer(self) } }
+impl<'a> Cast<Val<'a>> for i64 { fn cast(self) -> Val<'a> { if self == I64_NULL { Val::Null } else { Val::Integer(self) } } }
 
 impl<'a> Cast<Val<'a>> for &'a str { fn cast(self) -> Val<'a> { Val::Str(self) } }
 
